@@ -13,6 +13,7 @@ def gen(rng: random.Random, tier: str):
     for _ in range(reps):
         for op in OPS:
             yield {"op": op, "seed": rng.randrange(10**6), "data_seed": rng.randrange(10**6), "n": rng.randrange(0, 5_000_000)}
+    yield {"op": "string_seeds_across_processes", "seed": rng.randrange(10**6), "data_seed": 1, "hashseeds": {"quick": [1, 2], "thorough": [1, 2, 3, 77, 4242]}[tier]}
     for cfgs in ({"quick": [[1, 1, 250], [4, 2, 3]], "thorough": [[1, 1, 250], [4, 1, 250], [1, 4, 250], [4, 4, 3], [2, 2, 1], [8, 2, 17]]}[tier],):
         yield {"op": "thread_grid", "configs": cfgs, "seed": rng.randrange(10**6), "data_seed": 1}
 
@@ -89,6 +90,23 @@ def run(case: dict, lean: Lean) -> Outcome:
         n = case["n"]; real = [int(x) for x in WorkChunks.create(n)]; mod = lean.call("c11.chunk", {"n": n})
         ok = real == mod and (n == 0 or (real[1] > 0))
         return Outcome(real == mod, ok, ("generated chunking", "parallel range" if n >= 100 else "sequential range"), {"impl": real, "model": mod}, None)
+    if op == "string_seeds_across_processes":
+        # seeds derived from text (string user ids, string keys) must not depend on the interpreter's per-process hash salt
+        code = ("import sys, json; sys.path[:0] = json.loads(sys.argv[1]); from lkv.core import quiet_lenskit; quiet_lenskit(); import numpy as np; "
+                "from lenskit.random import make_seed; from lenskit.basic.random import RandomSelector; from lenskit.stochastic import StochasticTopNRanker; from lenskit.data import ItemList; "
+                "seed = int(sys.argv[2]); il = ItemList(item_ids=list(range(100, 112)), scores=np.linspace(0.5, 4.0, 12)); out = {}; "
+                "out['make_seed'] = [int(x) for x in np.random.default_rng(make_seed(seed, 'alice', b'key')).integers(1 << 30, size=3)]; "
+                "out['selector'] = {u: [int(i) for i in RandomSelector(n=3, rng=(seed, 'user'))(il, query=u).ids()] for u in ['alice', 'bob', 'u-0017', '']}; "
+                "out['ranker'] = {u: [int(i) for i in StochasticTopNRanker(n=3, rng=(seed, 'user'))(il, query=u).ids()] for u in ['alice', 'bob', 'u-0017']}; "
+                "print('RESULT ' + json.dumps(out, sort_keys=True))")
+        res = {}
+        for hs in case["hashseeds"]:
+            pr = subprocess.run([sys.executable, "-c", code, json.dumps([q for q in sys.path if q]), str(case["seed"])], env=dict(os.environ, PYTHONHASHSEED=str(hs)), capture_output=True, text=True, timeout=600)
+            line = [l for l in pr.stdout.splitlines() if l.startswith("RESULT ")]
+            if not line: return Outcome(False, False, tuple(classes + ["raised"]), {"error": pr.stderr[-300:]}, None)
+            res[hs] = line[0]
+        if len(set(res.values())) != 1: failed.append(f"text-derived seeds differ between interpreter processes (PYTHONHASHSEED {sorted(res)})")
+        return Outcome(not failed, not failed, tuple(classes + ["other interpreter processes"]), {"failed": failed, "outputs": {str(k): v[:200] for k, v in res.items()}}, None)
     if op == "thread_grid":
         code = ("import sys, json; sys.path[:0] = json.loads(sys.argv[1]); from lkv.core import quiet_lenskit; quiet_lenskit(); from lkv.props.c11 import _result, _data; "
                 "ds = _data(1, 120, 70, 0.15); print('RESULT ' + json.dumps({o: _result('train:' + o, 3, ds) for o in ['als', 'ials', 'iknn', 'funk', 'flex-e', 'flex-i']}))")
